@@ -33,13 +33,14 @@ def gen_program(r: Any, kind: str) -> dict:
     items = []
     for _ in range(r.randint(1, 4)):
         mode = r.choice(["imm", "rel", "rel", "rel_td", "abs"])
-        delay = 0.0 if mode == "imm" else r.choice([-0.1, 0.0, 0.1, 0.2, 0.2, 0.5])
+        # (delays that are not whole milliseconds: a scheduler that rounds a delay down starts its action early)
+        delay = 0.0 if mode == "imm" else r.choice([-0.1, 0.0, 0.1, 0.2, 0.2, 0.5, 0.0004, 0.0105, 0.2345])
         eff = max(0.0, delay)
         cancel = r.choice([None, None, 0.0, eff / 2, eff, eff, eff + 0.1]) if eff > 0 else r.choice([None, None, 0.0])
         items.append({"mode": mode, "delay": delay, "cancel_after": cancel})
     if not any(it["delay"] > 0 and (it["cancel_after"] is None or it["cancel_after"] >= it["delay"]) for it in items):
         # every program has at least one timed item that is allowed to run (the 'no early start' half needs one)
-        items.append({"mode": r.choice(["rel", "rel_td", "abs"]), "delay": r.choice([0.1, 0.2, 0.5]), "cancel_after": None})
+        items.append({"mode": r.choice(["rel", "rel_td", "abs"]), "delay": r.choice([0.1, 0.2, 0.5, 0.0105, 0.2345]), "cancel_after": None})
     r.shuffle(items)
     return {"kind": kind, "items": items}
 
